@@ -210,31 +210,49 @@ type logEv struct {
 	Attempt int    `json:"a"`
 }
 
-func coqLog(l []logEv) string {
-	var o []string
+func coqEvent(e logEv) string {
+	switch e.Kind {
+	case "ud":
+		return "EvUd " + hk.CoqNat(e.I)
+	case "win":
+		return "EvWIn " + hk.CoqNat(e.I)
+	case "wout":
+		return "EvWOut " + hk.CoqNat(e.I)
+	case "send", "resend":
+		return "EvSend"
+	case "cli":
+		return "EvCli " + hk.CoqNat(e.I)
+	case "req":
+		return "EvReq " + hk.CoqNat(e.I)
+	case "cond":
+		return "EvCond"
+	case "hook":
+		return "EvHook"
+	}
+	return "EvHook"
+}
+
+// the log grouped by iteration of do() (Request.RetryAttempt at the time of the call);
+// iterations = number of iterations that ran (final RetryAttempt + 1; 0 if do() was not entered)
+func coqLogs(l []logEv, iterations int) (string, int) {
+	groups := make([][]string, iterations)
+	hooks := 0
 	for _, e := range l {
-		switch e.Kind {
-		case "ud":
-			o = append(o, "EvUd "+hk.CoqNat(e.I))
-		case "win":
-			o = append(o, "EvWIn "+hk.CoqNat(e.I))
-		case "wout":
-			o = append(o, "EvWOut "+hk.CoqNat(e.I))
-		case "send", "resend":
-			o = append(o, "EvSend")
-		case "cli":
-			o = append(o, "EvCli "+hk.CoqNat(e.I))
-		case "req":
-			o = append(o, "EvReq "+hk.CoqNat(e.I))
-		case "cond":
-			o = append(o, "EvCond")
-		case "hook":
-			o = append(o, "EvHook")
-		case "onerror":
-			o = append(o, "EvOnError")
+		if e.Kind == "onerror" {
+			hooks++
+			continue
+		}
+		if e.Attempt >= 0 && e.Attempt < iterations {
+			groups[e.Attempt] = append(groups[e.Attempt], coqEvent(e))
+		} else {
+			groups = append(groups, []string{coqEvent(e)}) // cannot happen; makes the case mismatch
 		}
 	}
-	return hk.CoqList(o)
+	var o []string
+	for _, g := range groups {
+		o = append(o, hk.CoqList(g))
+	}
+	return hk.CoqList(o), hooks
 }
 
 type obsT struct {
@@ -253,6 +271,7 @@ type obsT struct {
 	Log      []logEv `json:"log"`
 	Order    string  `json:"order,omitempty"` // X-Order header as last seen by the transport
 	HookOK   bool    `json:"hook_ok"`         // OnError received the returned response and its Err
+	Iters    int     `json:"iterations"`      // iterations of do() that ran (final RetryAttempt + 1; 0: do() not entered)
 	TargetOK string  `json:"target_ok,omitempty"`
 }
 
@@ -261,8 +280,9 @@ func (o *obsT) coq() string {
 	if eb == "" {
 		eb = "ENone"
 	}
-	return fmt.Sprintf("(mkObs %s %s %s %s %s %s %s %s %s %s)", hk.CoqBool(o.Panic), hk.CoqBool(o.RespNil), hk.CoqBool(o.Present),
-		hk.CoqZ(int64(o.Status)), coqOptZ(o.RespErr), coqOptZ(o.RetErr), hk.CoqBool(o.Cached), hk.CoqBool(o.Result), eb, coqLog(o.Log))
+	logs, hooks := coqLogs(o.Log, o.Iters)
+	return fmt.Sprintf("(mkObs %s %s %s %s %s %s %s %s %s %s %s)", hk.CoqBool(o.Panic), hk.CoqBool(o.RespNil), hk.CoqBool(o.Present),
+		hk.CoqZ(int64(o.Status)), coqOptZ(o.RespErr), coqOptZ(o.RetErr), hk.CoqBool(o.Cached), hk.CoqBool(o.Result), eb, logs, hk.CoqNat(hooks))
 }
 
 func shapeOf(p *progSpec) string {
